@@ -33,7 +33,9 @@ import proto
 import real  # noqa: F401  (puts the repo under test on sys.path)
 
 BASE_NS = 1_700_000_000 * 10 ** 9
-TARGET = {".json": "policy.json", ".yaml": "policy.yaml", ".yml": "policy.yml", ".YML": "POLICY.YML"}
+TARGET = {".json": "policy.json", ".yaml": "policy.yaml", ".yml": "policy.yml", ".YML": "POLICY.YML",
+          # a JSON file below a directory whose NAME carries a YAML marker: the format is chosen by the file's extension alone
+          ".json/yamldir": "rbacx.yaml.d/policy.json"}
 
 OLD_DOC = '{"algorithm": "deny-overrides", "rules": [{"id": "old", "effect": "deny", "actions": ["*"], "resource": {"type": "*"}}]}'
 NEW_DOC = '{"algorithm": "permit-overrides", "rules": [{"id": "new", "effect": "permit", "actions": ["read"], "resource": {"type": "doc"}}, {"id": "n2", "effect": "deny", "actions": ["write"], "resource": {"type": "doc"}}]}'
@@ -480,13 +482,16 @@ def check_symlink(run: lib.Run, mod) -> None:
 # content pool: index → text.  0/1/2 have the same size; 3 is YAML only; 4 is a YAML list (not a mapping);
 # 5 is empty; 6 and 7 have other sizes
 CONTENTS = ['{"rules": []}', '{"rules": {}}', '{"rulez": []}', "rules: []\n", "- 1\n- 2\n", "",
-            '{"algorithm": "first-applicable", "rules": []}', "algorithm: deny-overrides\nrules: []\n"]
+            '{"algorithm": "first-applicable", "rules": []}', "algorithm: deny-overrides\nrules: []\n",
+            # 8: JSON that a YAML parser reads differently (1e6 is a float in JSON, a string in YAML 1.1; a tab after the colon)
+            '{"rules": [], "n": 1e6,\t"m": [1E3]}']
 assert len(CONTENTS[0]) == len(CONTENTS[1]) == len(CONTENTS[2])
 READS = (["etag"], ["load"])
 
 
 def alphabet(tier: str, ext: str) -> list[list]:
-    other = 3 if ext != ".json" else 6          # a YAML-only document for YAML files: the dispatch must be by extension
+    other = 8 if ext == ".json/yamldir" else (3 if ext != ".json" else 6)   # a YAML-only document for YAML files, a JSON-only one
+    # below the YAML-named directory: the dispatch must be by the file's extension
     ops = [["write", 0, 1], ["write", 1, 1], ["write", 1, 2], ["write", other, 2], ["touch", 2], ["delete"], ["etag"], ["load"]]
     if tier == "thorough":
         ops += [["write", 0, 2], ["touch", 1]]
@@ -539,8 +544,11 @@ class Disk:
 
     def run(self, ext: str, mt: bool, via_atomic: bool, ops: list[list]) -> list:
         path = os.path.join(self.d, TARGET[ext])
+        import shutil
         for x in os.listdir(self.d):
-            os.unlink(os.path.join(self.d, x))
+            full = os.path.join(self.d, x)
+            shutil.rmtree(full) if os.path.isdir(full) else os.unlink(full)
+        os.makedirs(os.path.dirname(path), exist_ok=True)
         src = self.mod.FilePolicySource(path, include_mtime_in_etag=mt)
         out = []
         for op in ops:
@@ -576,7 +584,7 @@ class Disk:
                 except Exception:  # noqa: BLE001
                     got = ["raised"]
                 out.append({"load": got, "disk": None if disk is None else list(disk)})
-        left = [x for x in os.listdir(self.d) if x != TARGET[ext]]
+        left = [x for x in os.listdir(os.path.dirname(path)) if x != os.path.basename(path)]
         if left:
             raise lib.CheckError(f"scratch directory polluted: {left}")
         return out
@@ -661,7 +669,7 @@ def judge_history(ext: str, mt: bool, ops: list[list], impl: list, ans: dict, tm
 def history_cases(run: lib.Run, scale: int = 1):
     quick = run.tier == "quick" and scale == 1
     maxlen = 4 if quick else 5
-    configs = [(".json", False, False), (".json", True, True), (".YML", False, True), (".yaml", True, False)]
+    configs = [(".json", False, False), (".json", True, True), (".YML", False, True), (".yaml", True, False), (".json/yamldir", False, False)]
     if not quick:
         configs += [(".yml", False, False), (".yml", True, True), (".YML", True, False), (".json", False, True)]
     for ext, mt, via in configs:
